@@ -2,6 +2,8 @@
 \* serves every request.  No state constraint: the bounds are guards of the actions.
 \* (With two databases the model - like the code, see known_findings.json - admits a
 \* starvation in Mode D; ConnPool_live_modeD.cfg documents that counterexample.)
+\* MaxOps = 3: with 4 operations the instance has 35M states (over an hour) and
+\* reaches the model's own task-id bound.
 SPECIFICATION LiveSpec
 CONSTANTS
     DBs = {"d1"}
@@ -11,7 +13,7 @@ CONSTANTS
     TaskIds = {1, 2, 3, 4}
     MaxConnId = 3
     FailBudget = 1
-    MaxOps = 4
+    MaxOps = 3
     TrackAct = FALSE
     FairPolicy = TRUE
 INVARIANT I_NoLostWakeup
